@@ -61,6 +61,11 @@ CLAIM = {
             'result sets, empty value lists, single combination): inside the quantifiers of the theorems; required '
             'branches in the harness. R6 scale (values/totals x 2^-40 .. 2^40, i.e. 1e-12 .. 1e12): theorems are over '
             'Q (scale free); harness comparisons exact or relative to the data scale (no absolute floor). '
+            'Insertion order of result names / parameter dictionaries is not part of the value: theorems '
+            'combine_pairs_results_by_name, merge_all_pairs_results_by_name, reorder_keeps_lookups, '
+            'param_order_is_sorted; scripts (op ro, independent name orders per object) and oracles (same-typed '
+            'results in different orders) tie it. A library exception on a covered input is always reported as a '
+            'failing input (script / float-stream / tree replays), never as an infrastructure error. '
             'Partial: the outer loop of append_all_results (AppendAllConcatStatement) is proved only per name; the '
             'num_skipped_reps tail of merge_all_results is covered by the frame/rejection theorems and one decided '
             'instance; that a passed validation implies the merge loop cannot raise is proved under the hypotheses '
@@ -268,10 +273,14 @@ def show_get(r):
 class Impl:
     """executes protocol ops on the real classes"""
 
+    last = None            # the most recent instance (to recover the script when a generator fails)
+
     def __init__(self):
         self.rv, self.sims, self.errs, self.outs = [], [], [], []
         self.n = 0
         self.hung = False
+        self.log = []
+        Impl.last = self
 
     def ref(self, ref):
         if ref[0] == 'r':
@@ -286,9 +295,17 @@ class Impl:
         t = op.split(',')
         i = self.n
         self.n += 1
+        self.log.append(op)
         try:
             k = t[0]
-            if k == 'nr':
+            if k == 'ro':
+                # the same result set with its results added in another order (harness-side re-creation of
+                # the dictionary; not a library call, so it is outside the exception capture below)
+                sim = self.sims[int(t[1])]
+                order = [x for x in t[2].split(':') if x != '']
+                assert sorted(order) == sorted(sim._results.keys())
+                sim._results = {nm: sim._results[nm] for nm in order}
+            elif k == 'nr':
                 cn = None if t[4] == '-' else int(t[4])
                 self.rv.append(R(t[1], int(t[2]), accumulate_values=(t[3] == '1'), choice_num=cn))
             elif k == 'u':
@@ -615,7 +632,9 @@ def gen_sim_script(rng, long=False):
         x = rng.uniform()
         if x < 0.2:
             continue
-        for nm in names:
+        order = list(names)
+        rng.shuffle(order)                       # every result set is filled in its own name order
+        for nm in order:
             if nm == NSR and rng.chance(0.5):
                 continue
             if x > 0.9 and rng.chance(0.3):
@@ -629,6 +648,10 @@ def gen_sim_script(rng, long=False):
     for _ in range(nsteps):
         x = rng.uniform()
         s, o = rng.below(nsims), rng.below(nsims)
+        if rng.chance(0.08) and len(im.sims[o]._results) >= 2:
+            keys = list(im.sims[o]._results.keys())
+            rng.shuffle(keys)
+            do('ro,%d,%s' % (o, ':'.join(keys)))
         if x < 0.55:
             if s == o and rng.chance(0.9):
                 o = (s + 1) % nsims
@@ -780,8 +803,12 @@ def gen_combine_script(rng, long=False):
     nunp = rng.choice([0, 1, 1, 2, 2]) if not long else rng.choice([0, 1, 2, 2, 3])
     nkind, pn = pick_names(rng, nunp)             # real names, in dictionary (insertion) order
     im.name_kind = nkind if nunp >= 2 else None
-    names = ['a', 'b'][:rng.randint(1, 2)]
+    names = ['a', 'b', 'c'][:rng.choice([1, 2, 2, 3])]
     spec = {nm: (rng.choice([0, 1, 2, 3]), rng.chance(0.25), rng.randint(1, 4)) for nm in names}
+    if rng.chance(0.6):
+        # same type / flags / number of choices for every name: a cross-name merge would not even raise
+        one = spec[names[0]]
+        spec = {nm: one for nm in names}
     fixed = '%s=%d' % (enc_name('f'), rng.randint(1, 3))
     pools = [value_pool(rng) for _ in range(nunp)]
     for s in range(2):
@@ -808,6 +835,9 @@ def gen_combine_script(rng, long=False):
         if rng.chance(0.03):
             size = max(0, size - 1)
         nms = list(names)
+        rng.shuffle(nms)                         # every operand adds its results in its own name order
+        if len(nms) >= 2 and s == 1 and nms != [e for e in im.sims[0]._results.keys()]:
+            im.order_differs = True
         if rng.chance(0.03):
             nms = nms[:-1] + ['z']
         for nm in nms:
@@ -821,6 +851,16 @@ def gen_combine_script(rng, long=False):
                     v, t = gen_obs(rng, ty, cn, scale=sc)
                     do('u,r%d,%s,%s' % (a, v, t))
                 do('ap,%d,r%d' % (s, a))
+    for sidx in (0, 1):
+        keys = list(im.sims[sidx]._results.keys())
+        if len(keys) >= 2 and rng.chance(0.25):
+            rng.shuffle(keys)
+            do('ro,%d,%s' % (sidx, ':'.join(keys)))
+    if list(im.sims[0]._results.keys()) != list(im.sims[1]._results.keys()) and \
+            sorted(im.sims[0]._results.keys()) == sorted(im.sims[1]._results.keys()):
+        im.order_differs = True
+    else:
+        im.order_differs = False
     do('cb,0,1')
     for pl in pools:
         im.kinds = getattr(im, 'kinds', []) + [pl[0]]
@@ -1205,11 +1245,16 @@ def o_history(case):
     return None
 
 
-def build_sim(specs, chunks, prefix=None, np_salt=None):
+def build_sim(specs, chunks, prefix=None, np_salt=None, rot=0):
     """a SimulationResults with one Result per name holding the chunk's observations, optionally
     behind earlier results of the same name (results of other parameter variations)"""
     res, _ = _impl()
     s = res.SimulationResults()
+    if rot:
+        k = rot % len(specs)
+        specs = list(specs[k:]) + list(specs[:k])
+        if (rot // len(specs)) % 2:
+            specs = specs[::-1]
     for nm, ty, acc, cn in specs:
         for ob in (prefix or {}).get(nm, []):
             s.append_result(feed(make_result(ty, acc, cn, nm), [tuple(o) for o in ob]))
@@ -1235,8 +1280,10 @@ def o_mergeall(case):
 
     def ev(t, leftmost=False):
         if t[0] == 'L':
+            # every leaf adds its results in another name order (insertion order is not part of the value)
             x = build_sim(specs, {nm: obs[nm][t[1]:t[2]] for nm in obs}, prefix if leftmost else None,
-                          None if case.get('np') is None else case['np'] + t[1])
+                          None if case.get('np') is None else case['np'] + t[1],
+                          rot=(case.get('name_rot', 0) * (1 + t[1])) if case.get('name_rot') else 0)
             x._c06_obs = {nm: list(obs[nm][t[1]:t[2]]) for nm in obs}
             return x
         a = ev(t[1], leftmost)
@@ -1324,9 +1371,10 @@ def o_appendall(case):
     res, _ = _impl()
     specs = [tuple(x) for x in case['specs']]
     sims = []
-    for part in case['parts']:
+    for pi, part in enumerate(case['parts']):
         s = res.SimulationResults()
-        for nm, ty, acc, cn in specs:
+        k = (pi * case.get('name_rot', 0)) % len(specs)
+        for nm, ty, acc, cn in (specs[k:] + specs[:k]):      # every part adds its results in another order
             for ob in part.get(nm, []):
                 s.append_result(feed(make_result(ty, acc, cn, nm), [tuple(o) for o in ob]))
         sims.append(s)
@@ -1355,7 +1403,7 @@ def combo_key(combo):
     return ','.join(tok(Fraction(c)) for c in combo)
 
 
-def build_grid_sim(fixed, names, grid, dtypes, specs, cells, np_salt=None, use_add=False):
+def build_grid_sim(fixed, names, grid, dtypes, specs, cells, np_salt=None, use_add=False, order=None):
     """a result set over the grid (value tokens, exact) with one Result per combination, in the order of
     get_unpacked_params_list (first parameter slowest); returns (object, the caller's value containers).
     use_add: parameters are handed over with add() (no copy is made by the library)"""
@@ -1377,7 +1425,8 @@ def build_grid_sim(fixed, names, grid, dtypes, specs, cells, np_salt=None, use_a
         p.set_unpack_parameter(nm)
     s = res.SimulationResults()
     s.set_parameters(p)
-    for rn, ty, acc, cn in specs:
+    for j in (order if order is not None else range(len(specs))):
+        rn, ty, acc, cn = specs[j]
         for combo in itertools.product(*grid):
             s.append_result(feed(make_result(ty, acc, cn, rn), [tuple(o) for o in cells[rn][combo_key(combo)]],
                                  np_salt))
@@ -1430,6 +1479,10 @@ def o_combine(case):
     pre = '%s:%s' % (grid_kind(grids), '+'.join(tys))
     if len(names) >= 2 and case.get('name_kind') and case['name_kind'] != 'plain':
         pre += ':names-' + case['name_kind']
+    if case.get('orders') and case['orders'][0] != case['orders'][1]:
+        pre += ':result-order-differs'
+    if len({(ty, acc, cn) for _, ty, acc, cn in specs}) == 1 and len(specs) >= 2:
+        pre += ':same-typed'
     salt = case.get('np')
     use_add = bool(case.get('use_add'))
     if salt is not None:
@@ -1439,8 +1492,9 @@ def o_combine(case):
         pre += ':containers'
     empty = [any(len(vs) == 0 for vs in g) for g in grids]
     try:
-        s1, cont1 = build_grid_sim(fixed, names, grids[0], dtypes[0], specs, cells[0], salt, use_add)
-        s2, cont2 = build_grid_sim(fixed, names, grids[1], dtypes[1], specs, cells[1], salt, use_add)
+        orders = case.get('orders') or [None, None]     # result-name insertion order of each operand
+        s1, cont1 = build_grid_sim(fixed, names, grids[0], dtypes[0], specs, cells[0], salt, use_add, orders[0])
+        s2, cont2 = build_grid_sim(fixed, names, grids[1], dtypes[1], specs, cells[1], salt, use_add, orders[1])
         snap1, snap2 = sim_state(s1), sim_state(s2)
         psnap = [params_snapshot(s1.params), params_snapshot(s2.params)]
         csnap = [{k: container_snapshot(v) for k, v in c.items()} for c in (cont1, cont2)]
@@ -1479,6 +1533,10 @@ def o_combine(case):
     combos = [[]]
     for vals in ugrid:
         combos = [c + [v] for c in combos for v in vals]
+    if not (empty[0] or empty[1]):
+        exp_names = [specs[j][0] for j in (orders[0] if orders[0] is not None else range(len(specs)))]
+        if list(u.get_result_names()) != exp_names:
+            return '%s:result-names' % pre, 'union holds %r, first operand %r' % (u.get_result_names(), exp_names)
     if empty[0] and empty[1]:
         # neither operand holds a result (both were "simulated" over an empty grid): nothing to combine
         if u.get_result_names():
@@ -1721,7 +1779,55 @@ def o_combine_2d(case):
     return None
 
 
+def o_script(case):
+    """replay of a correspondence script: the real classes must run it (library exceptions are part of the
+    compared outcome), their state must be extractable, and it must equal the model's"""
+    try:
+        im = Impl()
+        for op in case['ops']:
+            im.step(op)
+        im_c = im.canon()
+    except core.Infra:
+        raise
+    except Exception as e:
+        return 'script:exception:%s' % type(e).__name__, repr(e)[:300]
+    reply = core.Driver(DRIVER).ask(['prog ' + ' '.join(case['ops'])])[0]
+    d = first_diff(im_c, parse_model(reply))
+    if d is not None:
+        return 'script:differs-from-model', d[:300]
+    return None
+
+
+def o_float(case):
+    """arbitrary binary64 observations (tokens are their exact values): merged tree vs exact sums, rtol 1e-9"""
+    ty = case['ty']
+    obs = [(Fraction(v), None if t == '-' else Fraction(t)) for v, t in case['obs']]
+    try:
+        def ev(t):
+            if t[0] == 'L':
+                x = make_result(ty, False, 0)
+                for v, tt in obs[t[1]:t[2]]:
+                    x.update(v.numerator / v.denominator, None if tt is None else tt.numerator / tt.denominator)
+                return x
+            a, b = ev(t[1]), ev(t[2])
+            a.merge(b)
+            return a
+        r = ev(tuplify(case['tree']))
+    except Exception as e:
+        return 'float:exception:%s' % type(e).__name__, repr(e)[:300]
+    vs = sum(v for v, _ in obs)
+    ts = sum((t for _, t in obs if t is not None), Fraction(0))
+    q = [v / t if t is not None else v for v, t in obs]
+    exp = (vs, ts, sum(q), sum(x * x for x in q), len(obs))
+    got = (r._value, r._total, r._result_sum, r._result_squared_sum)
+    if r.num_updates != exp[4] or not all(core.close(float(g), float(e)) for g, e in zip(got, exp[:4])):
+        return 'float:%s:sums-differ' % TYN[ty], '%r expected %r' % (got, [float(e) for e in exp[:4]])
+    return None
+
+
 ORACLES = {
+    'script': o_script,
+    'Result.merge/float': o_float,
     'combine_simulation_results/2d': o_combine_2d,
     'rejected-call': o_rejected,
     'Result.merge': o_partition,
@@ -1808,6 +1914,8 @@ def gen_mergeall_case(rng, nmax):
     specs = []
     for nm in ['a', 'b', 'c'][:nn]:
         specs.append([nm, rng.choice([0, 1, 3, 0, 1, 3, 2]), rng.chance(0.3), rng.randint(1, 4)])
+    if rng.chance(0.5):
+        specs = [[nm, specs[0][1], specs[0][2], specs[0][3]] for nm, _, _, _ in specs]   # same-typed results
     n = rng.randint(1, nmax)
     sc = pick_scale(rng)
     obs = {}
@@ -1823,7 +1931,8 @@ def gen_mergeall_case(rng, nmax):
         for nm, ty, acc, cn in specs:
             prefix[nm] = [gen_obs_list(rng, ty, cn, rng.randint(1, 3), sc) for _ in range(rng.randint(1, 2))]
     return {'specs': specs, 'obs': obs, 'tree': tree, 'into_empty': into_empty, 'prefix': prefix,
-            'scale': list(sc), 'np': rng.below(1000) if rng.chance(0.35) else None}
+            'scale': list(sc), 'np': rng.below(1000) if rng.chance(0.35) else None,
+            'name_rot': rng.randint(1, 7) if (nn >= 2 and rng.chance(0.7)) else 0}
 
 
 def gen_appendall_case(rng):
@@ -1836,15 +1945,22 @@ def gen_appendall_case(rng):
             if rng.chance(0.8):
                 part[nm] = [gen_obs_list(rng, ty, cn, rng.randint(0, 3)) for _ in range(rng.randint(1, 3))]
         parts.append(part)
-    return {'specs': specs, 'parts': parts}
+    return {'specs': specs, 'parts': parts, 'name_rot': rng.randint(0, 2)}
 
 
 def gen_combine_case(rng, nunp=None, ty=None):
     nunp = rng.choice([0, 1, 1, 2, 2, 3]) if nunp is None else nunp
     nkind, pn = pick_names(rng, nunp)
-    nn = rng.randint(1, 2)
+    nn = rng.choice([1, 2, 2, 3])
     specs = [[nm, rng.choice([0, 1, 2, 3]) if ty is None else ty, False, rng.randint(1, 4)]
-             for nm in ['a', 'b'][:nn]]
+             for nm in ['a', 'b', 'c'][:nn]]
+    if rng.chance(0.6):
+        specs = [[nm, specs[0][1], False, specs[0][3]] for nm, _, _, _ in specs]    # same-typed results
+    orders = []
+    for _ in range(2):
+        o = list(range(nn))
+        rng.shuffle(o)
+        orders.append(o)
     pools = [value_pool(rng) for _ in range(nunp)]
     sc = pick_scale(rng)
     grids, cells, dtypes = [], [], []
@@ -1862,7 +1978,7 @@ def gen_combine_case(rng, nunp=None, ty=None):
         dtypes.append(''.join(pv[1] for pv in picked))
         cells.append(c)
     return {'specs': specs, 'pnames': pn, 'grids': grids, 'dtypes': dtypes, 'cells': cells, 'fixed': [['f', 3]],
-            'kinds': [pl[0] for pl in pools], 'name_kind': nkind,
+            'kinds': [pl[0] for pl in pools], 'name_kind': nkind, 'orders': orders,
             'np': rng.below(1000) if rng.chance(0.35) else None,
             'use_add': rng.chance(0.5), 'scale': list(sc)}
 
@@ -1888,12 +2004,23 @@ def corr_scripts(ctx, drv, name, gen, count, long=False):
         del batch[:], metas[:]
 
     for _ in range(count):
-        ops, im = gen(ctx.rng, long)
-        im_c = im.canon()
+        try:
+            ops, im = gen(ctx.rng, long)
+            im_c = im.canon()
+        except core.Infra:
+            raise
+        except Exception as e:
+            # the library (or its state) did something the harness cannot even represent: a failing input
+            log = list(getattr(Impl.last, 'log', []))
+            ctx.fail('script', 'script:exception:%s' % type(e).__name__, {'ops': log}, repr(e)[:300])
+            ctx.branch('script-exception')
+            continue
         for kd in getattr(im, 'kinds', []):
             ctx.branch('script:values=' + kd)
         if getattr(im, 'name_kind', None):
             ctx.branch('script:names=' + im.name_kind)
+        if getattr(im, 'order_differs', False):
+            ctx.branch('script:result-names-in-different-order')
         if getattr(im, 'np_updates', 0):
             ctx.branch('script:R1:np-scalars', im.np_updates)
         sc = getattr(im, 'scale', (0, 0))
@@ -1936,10 +2063,12 @@ def corr_trees(ctx, drv, count, nmax):
             a = res_state(eval_tree_impl(t, ty, acc, cn, obs))
         except Exception as e:
             a = 'error:' + type(e).__name__
+            ctx.fail('Result.merge', '%s:merge:exception:%s' % (TYN[ty], type(e).__name__), case, repr(e)[:300])
         try:
             b = res_state(feed(make_result(ty, acc, cn), obs))
         except Exception as e:
             b = 'error:' + type(e).__name__
+            ctx.fail('Result.merge', '%s:update:exception:%s' % (TYN[ty], type(e).__name__), case, repr(e)[:300])
         lines.append('tree %d %d %d %s %s' % (ty, 1 if acc else 0, cn if ty == 3 else 0, '.'.join(tree_shape(t)),
                                               ';'.join('%s,%s' % o for o in obs) or ';'))
         metas.append((case, a, b))
@@ -1993,6 +2122,9 @@ def corr_float_stream(ctx, drv, count):
                                             ';'.join('%s,%s' % (tok(Fraction(v)), '-' if tt is None else tok(Fraction(tt)))
                                                      for v, tt in obs)))
         metas.append(r)
+        run_oracle(ctx, 'Result.merge/float',
+                   {'ty': ty, 'tree': tree,
+                    'obs': [[tok(Fraction(v)), '-' if tt is None else tok(Fraction(tt))] for v, tt in obs]})
     out = drv.ask(lines)
     for r, reply, line in zip(metas, out, lines):
         ok = False
@@ -2089,6 +2221,8 @@ def oracles(ctx, quick):
     for _ in range(200 * k):
         case = gen_mergeall_case(ctx.rng, 12 if quick else 40)
         run_oracle(ctx, 'SimulationResults.merge_all_results', case)
+        if case.get('name_rot'):
+            ctx.branch('mergeall:result-names-in-different-order')
         note_case(ctx, case)
     for _ in range(100 * k):
         run_oracle(ctx, 'SimulationResults.append_all_results', gen_appendall_case(ctx.rng))
@@ -2101,6 +2235,10 @@ def oracles(ctx, quick):
         ctx.branch('combine:class=' + grid_kind(case['grids']))
         if len(case['pnames']) >= 2:
             ctx.branch('combine:names=' + case['name_kind'])
+        if case['orders'][0] != case['orders'][1]:
+            ctx.branch('combine:result-names-in-different-order')
+            if len({(t, a, c) for _, t, a, c in case['specs']}) == 1:
+                ctx.branch('combine:different-order+same-typed')
         note_case(ctx, case)
 
 
@@ -2164,7 +2302,9 @@ def check(ctx):
                              'script:R7:resultset-operand-twice', 'combine:names=digits', 'combine:names=case',
                              'combine:names=prefix', 'combine:names=leading', 'combine:names=unicode',
                              'script:names=digits', 'script:names=case', 'script:names=prefix', 'script:names=leading',
-                             'script:names=unicode',
+                             'script:names=unicode', 'script:result-names-in-different-order', 'op:ro',
+                             'combine:result-names-in-different-order', 'combine:different-order+same-typed',
+                             'mergeall:result-names-in-different-order',
                              'script:values=big', 'script:values=ulp', 'script:values=mixed']
     try:
         correspondence(ctx, quick)
@@ -2172,6 +2312,10 @@ def check(ctx):
         if not ctx.broken:
             raise
         ctx.notes.append('correspondence skipped: %s' % e)
+        ctx.required_branches = []
+    except Exception as e:      # never exit 2 because the changed library surprised the harness
+        import traceback
+        ctx.tie_broken('correspondence', 'harness-exception:%s' % type(e).__name__, traceback.format_exc()[-1500:])
         ctx.required_branches = []
     witnesses(ctx)
     oracles(ctx, quick)
